@@ -5,7 +5,9 @@ usage: sensitivity.py PROP [--tier quick|thorough] [--only substring] [--seed N]
 import os, subprocess, sys, glob, time, json, re
 HERE = os.path.dirname(os.path.abspath(__file__))
 VERIF = os.path.dirname(HERE)
-SILENT = {"C14_m6_threshold_off_by_one_lookup", "C16_m5_neutral_chunk_64", "C15_m4_neutral_loop_direction", "C12_m5_neutral_k_clause_threshold", "C12_m6_strassen_deep_split_uneven"}  # m6 turned out to be equivalent: Strassen-Winograd is correct for any word-aligned split  # mutants that do NOT break the property: the check must stay silent
+SILENT = {"C14_m6_threshold_off_by_one_lookup", "C16_m5_neutral_chunk_64", "C15_m4_neutral_loop_direction", "C12_m5_neutral_k_clause_threshold", "C12_m6_strassen_deep_split_uneven",
+          "C10_m3_neutral_add_rewritten_equivalently", "C18_m1_neutral_png_read_row_buffer_exact",
+          "C10_m5_mul_naive_does_not_clear_full_last_word"}  # C10_m5 is dead code: _mzd_mul_naive is only reached for B->ncols < 54, never a multiple of 64  # m6 turned out to be equivalent: Strassen-Winograd is correct for any word-aligned split  # mutants that do NOT break the property: the check must stay silent
 
 def main():
     a = sys.argv[1:]
